@@ -35,6 +35,14 @@ pub fn oracle(s: &[u8]) -> Result<&'static str, (String, String)> {
             if mf.crc() != crc_ref || crc_ref != crate::crc::crc24q_bitwise(&s[..l + 3]) {
                 return Err(("c03:crc".into(), format!("reported crc {:06x} != trailing checksum {:06x}", mf.crc(), crc_ref)));
             }
+            // accepted as a frame also when the slice is handed to the scanner (first L+6 bytes, whatever they end in)
+            if s.len() <= 2200 {
+                let (c, f) = next_msg_frame(s);
+                match f {
+                    Some(m) if c == l + 6 && m.frame_len() == l + 6 => {}
+                    _ => return Err(("c03:valid-frame-rejected-by-scanner".into(), format!("reference accepts (L={}, checksum {:06x}) and MessageFrame::new accepts, but next_msg_frame on the same slice consumed {} and delivered {}", l, crc_ref, c, if f.is_some() { "another frame" } else { "nothing" }))),
+                }
+            }
             Ok("accepted")
         }
         RefVerdict::Incomplete => match r {
@@ -113,7 +121,7 @@ pub fn run(ctx: &Ctx, replay: Option<&J>) -> CheckResult {
     crate::crc::self_check();
     let rule = "for every payload length L=0..=1023: frames with random payload and random reserved bits, frames of that length announcing every supported message number in their first 12 payload bits, and near-misses derived \
         from them (wrong preamble, every truncation length 0..L+5, each checksum bit flipped, checksum byte changed/swapped, \
-        length field +-1/random with and without trailing bytes, payload bit flips, trailing bytes, other reserved bits; all 64 reserved-bit patterns for every length = all 65536 header patterns, alone and followed by >1029 bytes, and each again with a payload whose first 1..8 bytes repeat the preamble or a header byte (with truncations); frames at the start of slices of 65535..131077 bytes; frames whose checksum is 0x000000, 0xFFFFFF, 0xD30000 and ten more special values, with their near-misses), plus random \
+        length field +-1/random with and without trailing bytes, payload bit flips, trailing bytes, other reserved bits; all 64 reserved-bit patterns for every length = all 65536 header patterns, alone and followed by >1029 bytes, and each again with a payload whose first 1..8 bytes repeat the preamble or a header byte (with truncations); frames at the start of slices of 65535..131077 bytes; frames whose checksum is 0x000000, 0xFFFFFF, 0xD30000, ...0D0A (CR LF) and seventeen more special values, with their near-misses), plus random \
         and D3-prefixed random slices; oracle = own CRC-24Q acceptance predicate compared with MessageFrame::new incl. \
         reported lengths/payload/checksum and error kind; wrong-checksum candidates between valid frames are also looked at through next_msg_frame-based iteration (next, nth, skip, count) which must deliver exactly the accepted frames. non-trivial = accepted frame or near-miss derived from one; distinct = hash of the slice bytes"
         .to_string();
